@@ -134,6 +134,57 @@ def gen_transl(r, n, names, lhs):
     return (None, 0, None)
 
 
+CLASSIC = [
+    # (rules 'lhs : alt | alt ;; lhs : ...', terminals) -- the shapes of the shipped tests and of textbooks
+    ("E : E + T | T ;; T : T * F | F ;; F : a | ( E )", "a+*()"),
+    ("E : E + E | E * E | a | ( E )", "a+*()"),
+    ("E : T R ;; R : + T R | ;; T : F Q ;; Q : * F Q | ;; F : a | ( E )", "a+*()"),
+    ("P : P S | S ;; S : a = E ; | error ; | { P } ;; E : E + a | a", "a=;+{}"),
+    ("P : S P | ;; S : a ; | error ; | { P }", "a;{}"),
+    ("S : i E t S | i E t S e S | a ;; E : b", "ietab"),
+    ("S : a S b | ", "ab"),
+    ("S : a S a | b S b | a | b | ", "ab"),
+    ("S : S S | ( S ) | ", "()"),
+    ("L : L , x | x", "x,"),
+    ("L : x , L | x", "x,"),
+    ("S : A B ;; A : a A | ;; B : b B | b", "ab"),
+    ("S : A S | a ;; A : | a", "a"),
+    ("S : ( S ) | a | error", "()a"),
+    ("D : T V ; | D T V ; ;; T : i | c | T * ;; V : x | V , x | V [ n ] | error", "ic*x,[n];"),
+    ("S : x A A ;; A : | a | a A", "xa"),
+]
+
+
+def gen_classic_grammar(r, with_transl=True):
+    spec, ts = r.choice(CLASSIC)
+    tn = {}
+    terms = []
+    for i, ch in enumerate(ts):
+        name = ch if ch.isalnum() else {'+': 'plus', '*': 'star', '(': 'lp', ')': 'rp', '=': 'eq', ';': 'semi', '{': 'lb', '}': 'rb',
+                                        ',': 'comma', '[': 'lsq', ']': 'rsq'}[ch]
+        tn[ch] = name
+        terms.append((name, ord(ch) if r.random() < 0.7 else 300 + 7 * i))
+    names = iter('pqrstuvwxyz' * 6)
+    rules = []
+    for part in spec.split(' ;; '):
+        part = part.strip()
+        if not part: continue
+        lhs, rhs_all = part.split(' : ', 1) if ' : ' in part else (part.rstrip(' :').strip(), '')
+        for alt in rhs_all.split('|'):
+            syms = alt.split()
+            rhs = []
+            for x in syms:
+                if x == 'error': rhs.append('error')
+                elif x in tn: rhs.append(tn[x])
+                else: rhs.append(x)
+            if with_transl: an, cost, tr = gen_transl(r, len(rhs), names, lhs)
+            else: an, cost, tr = None, 0, None
+            rules.append((lhs.strip(), an, cost, rhs, tr))
+    for st in (True, False):
+        if py_check(terms, rules, st) == 0: return Grammar(terms, rules, st)
+    return None
+
+
 def gen_structured_grammar(r, with_transl=True):
     """grammar families whose analysis / forest has a particular structure that random rules
     rarely produce"""
@@ -190,8 +241,9 @@ def gen_structured_grammar(r, with_transl=True):
 
 
 def gen_grammar(r, nnt=None, nt_=None, err_prob=0.25, maxrules=3, strict=None, with_transl=True, tries=60):
-    if nnt is None and nt_ is None and strict is None and r.random() < 0.08:
-        g = gen_structured_grammar(r, with_transl)
+    if nnt is None and nt_ is None and strict is None:
+        x = r.random()
+        g = gen_structured_grammar(r, with_transl) if x < 0.08 else gen_classic_grammar(r, with_transl) if x < 0.20 else None
         if g is not None: return g
     """a random grammar accepted by the definition checks (if possible within `tries`)"""
     for _ in range(tries):
